@@ -95,6 +95,9 @@ def entries(ctx):
             out.append((k, False))
         elif k == "api::types::Types::next_log_index":
             out.append((k, True))
+        elif re.search(r"DumpRaftLogIter<'_, T> as std::iter::Iterator>::next$|dump_raft_log::DumpRaftLog::<T>::(iter|state)$|"
+                       r"dump::Dump::<T>::new$|config::Config::(chunk_path|new|new_full|\w+)$", k) and (b.get("pub") or "Iterator" in k):
+            out.append((k, not re.search(r"fn\(&'a ", b.get("sig", "")) and "Iterator" not in k))
     return sorted(set(out))
 
 
